@@ -52,7 +52,7 @@ type mop struct {
 
 func (m mop) String() string { return fmt.Sprintf("%s(%d,%v)", m.Kind, m.Pick, m.Voter) }
 
-var opKinds = []string{"join-new", "join-new", "rejoin-new-addr", "reuse-addr", "reuse-id", "role-change", "role-change", "rejoin-same", "remove", "stepdown"}
+var opKinds = []string{"join-new", "join-new", "rejoin-new-addr", "reuse-addr", "reuse-id", "role-change", "role-change", "rejoin-same", "remove", "stepdown", "vacated-addr-dance", "vacated-addr-dance"}
 
 type plan struct {
 	Notify  bool // notify-driven bootstrap of 3 voters instead of bootstrap+join
@@ -62,6 +62,7 @@ type plan struct {
 	ReapCfg int  // index into reapCfgs
 	Ops     []mop
 	Kill    bool // final step: kill a member and watch
+	AddrIDs bool // node IDs are the nodes' own first raft addresses
 	KillSel int
 }
 
@@ -79,6 +80,7 @@ func genPlan(rt *rapid.T) plan {
 		p.Ops = append(p.Ops, mop{Kind: opKinds[rapid.IntRange(0, len(opKinds)-1).Draw(rt, "kind")], Pick: rapid.IntRange(0, 7).Draw(rt, "pick"), Voter: rapid.Bool().Draw(rt, "voter")})
 	}
 	p.Kill = rapid.IntRange(0, 2).Draw(rt, "kill") == 0
+	p.AddrIDs = rapid.Bool().Draw(rt, "addrIDs")
 	p.KillSel = rapid.IntRange(0, 7).Draw(rt, "killsel")
 	return p
 }
@@ -88,7 +90,7 @@ func (p plan) String() string {
 	for i, o := range p.Ops {
 		s[i] = o.String()
 	}
-	return fmt.Sprintf("notify=%v/%d voters=%d nonv=%d reap=%v ops=[%s] kill=%v/%d", p.Notify, p.Quirk, p.Voters, p.NonV, reapCfgs[p.ReapCfg], strings.Join(s, " "), p.Kill, p.KillSel)
+	return fmt.Sprintf("addrIDs=%v notify=%v/%d voters=%d nonv=%d reap=%v ops=[%s] kill=%v/%d", p.AddrIDs, p.Notify, p.Quirk, p.Voters, p.NonV, reapCfgs[p.ReapCfg], strings.Join(s, " "), p.Kill, p.KillSel)
 }
 
 type member struct {
@@ -132,6 +134,8 @@ type env struct {
 	model   map[string]*member
 	nextEP  int
 	nextID  int
+	addrIDs bool // new nodes take their own first raft address as node ID (rqlited's default)
+	nextDir int
 	trace   []string
 	deadIDs map[string]bool // configured members whose process the harness stopped/killed
 }
@@ -435,6 +439,41 @@ func (e *env) failedJoin(id, addr string, voter bool, old *member, proc *vnode.N
 	e.model[id] = &member{id: id, addr: addr, voter: voter, node: proc, alive: false, deadAt: time.Now(), absentOK: true}
 }
 
+// startNew starts a brand-new node on a fresh endpoint. In addrIDs mode its node ID is the
+// literal string of its own (first) raft address, as rqlited does by default.
+func (e *env) startNew() (*vnode.Node, error) {
+	name := e.ep()
+	id := e.id()
+	if e.addrIDs {
+		ln, err := e.c.Net.Listen(name) // reserves the address; Start re-attaches to the same port
+		if err != nil {
+			return nil, err
+		}
+		id = ln.Addr().String()
+		ln.Close()
+	}
+	return e.c.Start(name, id)
+}
+
+// move lets member m come back from a new endpoint with its old data directory and re-join.
+func (e *env) move(m *member, voter bool, what string) (bool, string) {
+	e.c.Stop(m.node)
+	m.alive = false
+	m.deadAt = time.Now()
+	n, err := e.c.StartDir(e.ep(), m.id, m.node.Dir, e.c.Opts)
+	if err != nil {
+		return true, what + " start FAILED " + err.Error()
+	}
+	if err := e.join(n, m.id, n.Addr, voter); err != nil {
+		e.c.Stop(n)
+		e.failedJoin(m.id, n.Addr, voter, m, n, err)
+		return true, fmt.Sprintf("%s %s -> %s voter=%v FAILED(%v)", what, m.id, n.Addr, voter, err)
+	}
+	m.addr, m.voter, m.node, m.alive = n.Addr, voter, n, true
+	m.settle()
+	return true, fmt.Sprintf("%s %s -> %s voter=%v", what, m.id, n.Addr, voter)
+}
+
 func (e *env) pickMember(pick int, f func(*member) bool) *member {
 	var c []*member
 	for _, id := range e.sortedIDs() {
@@ -460,7 +499,7 @@ func (e *env) apply(o mop) (ok bool, desc string) {
 		if len(e.model) >= 4 {
 			return false, ""
 		}
-		n, err := e.c.Start(e.ep(), e.id())
+		n, err := e.startNew()
 		if err != nil {
 			return false, "start-failed"
 		}
@@ -476,21 +515,52 @@ func (e *env) apply(o mop) (ok bool, desc string) {
 		if m == nil || (m.voter && !e.canStopVoter()) {
 			return false, ""
 		}
-		e.c.Stop(m.node)
-		m.alive = false
-		m.deadAt = time.Now()
-		n, err := e.c.StartDir(e.ep(), m.id, m.node.Dir, e.c.Opts)
+		return e.move(m, o.Voter, "rejoin-new-addr")
+	case "vacated-addr-dance":
+		// m moves away; a NEW node takes over the endpoint (address) m vacated; m moves again (so it sits
+		// behind the newcomer in the configuration); then m is removed by ID. In addrIDs mode m's ID is the
+		// literal address the newcomer now owns.
+		m := e.pickMember(o.Pick, func(m *member) bool { return notLeader(m) && m.sure() })
+		if m == nil || (m.voter && !e.canStopVoter()) || len(e.model) >= 4 {
+			return false, ""
+		}
+		oldName, role := m.node.Name, m.voter
+		_, d1 := e.move(m, role, "dance:move")
+		if strings.Contains(d1, "FAILED") {
+			return true, d1
+		}
+		e.nextDir++
+		n2, err := e.c.StartDir(oldName, e.id(), fmt.Sprintf("%s/reuse%d", e.c.Dir, e.nextDir), e.c.Opts)
 		if err != nil {
-			return true, "rejoin-new-addr start FAILED " + err.Error()
+			return true, d1 + " | dance:newcomer start FAILED " + err.Error()
 		}
-		if err := e.join(n, m.id, n.Addr, o.Voter); err != nil {
-			e.c.Stop(n)
-			e.failedJoin(m.id, n.Addr, o.Voter, m, n, err)
-			return true, fmt.Sprintf("rejoin-new-addr %s -> %s voter=%v FAILED(%v)", m.id, n.Addr, o.Voter, err)
+		if err := e.join(n2, n2.ID, n2.Addr, o.Voter); err != nil {
+			e.c.Stop(n2)
+			e.failedJoin(n2.ID, n2.Addr, o.Voter, nil, n2, err)
+			return true, fmt.Sprintf("%s | dance:newcomer %s@%s FAILED(%v)", d1, n2.ID, n2.Addr, err)
 		}
-		m.addr, m.voter, m.node, m.alive = n.Addr, o.Voter, n, true
-		m.settle()
-		return true, fmt.Sprintf("rejoin-new-addr %s -> %s voter=%v", m.id, n.Addr, o.Voter)
+		e.model[n2.ID] = &member{id: n2.ID, addr: n2.Addr, voter: o.Voter, node: n2, alive: true}
+		d2 := fmt.Sprintf("dance:newcomer %s@%s voter=%v", n2.ID, n2.Addr, o.Voter)
+		if m.voter && !e.canStopVoter() {
+			return true, d1 + " | " + d2
+		}
+		_, d3 := e.move(m, role, "dance:move-again")
+		if strings.Contains(d3, "FAILED") {
+			return true, d1 + " | " + d2 + " | " + d3
+		}
+		if l = e.leader(); l == nil || m.node == l {
+			return true, d1 + " | " + d2 + " | " + d3
+		}
+		if err := l.Store.Remove(context.Background(), &proto.RemoveNodeRequest{Id: m.id}); err != nil {
+			if !cleanReject(err) {
+				m.absentOK = true
+			}
+			return true, fmt.Sprintf("%s | %s | %s | dance:remove %s FAILED(%v)", d1, d2, d3, m.id, err)
+		}
+		e.c.Stop(m.node)
+		delete(e.model, m.id)
+		e.rec.Label("dance:completed")
+		return true, fmt.Sprintf("%s | %s | %s | dance:remove %s", d1, d2, d3, m.id)
 	case "reuse-addr":
 		m := e.pickMember(o.Pick, notLeader)
 		if m == nil || (m.voter && !e.canStopVoter()) {
@@ -663,7 +733,10 @@ func TestVerif_C32_Hist(t *testing.T) {
 		defer wd.Stop()
 		opts := vnode.Fast()
 		opts.ReapTimeout, opts.ReapReadOnlyTimeout = reapCfgs[p.ReapCfg][0], reapCfgs[p.ReapCfg][1]
-		e := &env{rec: rec, c: vnode.NewCluster(dir, opts), model: map[string]*member{}}
+		e := &env{rec: rec, c: vnode.NewCluster(dir, opts), model: map[string]*member{}, addrIDs: p.AddrIDs}
+		if p.AddrIDs {
+			rec.Label("id-equals-some-address")
+		}
 		defer e.c.Close()
 		fail := func(sig, msg string) {
 			full := fmt.Sprintf("%s; history: %s", msg, strings.Join(e.trace, " | "))
@@ -695,7 +768,7 @@ func TestVerif_C32_Hist(t *testing.T) {
 				return
 			}
 		} else {
-			n0, err := e.c.Start(e.ep(), e.id())
+			n0, err := e.startNew()
 			if err != nil || e.c.Bootstrap(n0) != nil {
 				rec.Label("inconclusive:bootstrap")
 				return
@@ -763,7 +836,7 @@ func TestVerif_C32_Hist(t *testing.T) {
 				}
 			}
 			switch o.Kind {
-			case "rejoin-new-addr", "reuse-addr", "reuse-id", "role-change":
+			case "rejoin-new-addr", "reuse-addr", "reuse-id", "role-change", "vacated-addr-dance":
 				interesting = true
 			}
 		}
